@@ -21,6 +21,7 @@ R2.18 the cycle tracker's exit removes the schema from the stack and completes i
 R2.19 a reference wrapped in `allOf` with annotations only is resolved like the bare reference (property positions)
 R2.20 the type inferred for a node with `allOf` follows its members (an allOf over an enum / array is not an object)                    [finding]
 R2.21 the made-up name of an inline property schema is tied to its document node (name -> node record on the context, identity compared)
+R2.23 no named schema is filtered out between de-collision and the emission of the model files (every schema keeps its model)                [= R1.8, file filter]
 R2.22 an allOf merge that met a base schema still on the parsing stack (a field-less placeholder) is completed once all schemas are parsed   [= R19.13]
 R2.15 writer / reader agreement on registry keys: the key a raw name is registered under is recorded, and $ref resolution / build_schemas
       find a schema through that index (no second parse of a schema whose sanitised name differs from its declared name)
@@ -130,6 +131,12 @@ def run(repo: Repo, rep: Report, tier: str) -> None:
     rule_sibling_names_are_distinct(repo, rep, "R2.16")
     rule_invented_names_avoid_declared(repo, rep, "R2.17")
     rule_all_of_merge_is_completed(repo, rep, "R2.22")
+    # R2.23: "every named schema is represented by exactly one model": no schema is taken out between de-collision and the writing of the
+    # model files (a bookkeeping flag such as `_from_unresolved_ref` is also set on real, fully parsed schemas at the head of a cycle)   [= R1.8, file filter]
+    from rules.c01 import _models_emitter_rules
+    from rules._reuse import _Filter as _F223
+
+    _models_emitter_rules(repo, _F223(rep, {"R1.8": "R2.23"}, only=lambda subj: "file filter" in subj))
     rule_annotated_reference(repo, rep, "R2.19")
     rule_invented_names_are_per_node(repo, rep, "R2.21")
     rule_allof_type_follows_members(repo, rep, "R2.20")
@@ -656,6 +663,19 @@ def rule_name_fallback_respects_kind(repo: Repo, rep: Report, rule: str = "R2.11
     cfg = CFG(fn.node)
     dom = cfg.dominators()
     n = 0
+    class_consts = {}
+    for st0 in sr.classes["OpenAPISchemaResolver"].node.body + list(sr.tree.body):
+        if isinstance(st0, (ast.Assign, ast.AnnAssign)) and st0.value is not None:
+            tg0 = st0.targets[0] if isinstance(st0, ast.Assign) else st0.target
+            if isinstance(tg0, ast.Name):
+                try:
+                    val0 = ast.literal_eval(st0.value)
+                except Exception:
+                    continue
+                class_consts[f"self.{tg0.id}"] = val0
+                class_consts[f"cls.{tg0.id}"] = val0
+                class_consts[f"OpenAPISchemaResolver.{tg0.id}"] = val0
+                class_consts.setdefault(tg0.id, val0)
     for nd in cfg.nodes:
         if nd.kind != "stmt" or nd.ast is None or nd.copy:
             continue
@@ -701,7 +721,7 @@ def rule_name_fallback_respects_kind(repo: Repo, rep: Report, rule: str = "R2.11
                         for tt_ in DOM:
                             if st_ == tt_:
                                 continue
-                            env = {f"{p_schema}.type": st_, f"{tgt}.type": tt_, p_schema: A, tgt: B, f"{p_schema}.name": "N"}
+                            env = {**class_consts, f"{p_schema}.type": st_, f"{tgt}.type": tt_, p_schema: A, tgt: B, f"{p_schema}.name": "N"}
                             for nm_, ds_ in L.defs.items():  # locals that hold one of the two types (`schema_type = getattr(schema, "type", None)`)
                                 for _, v_, _ in ds_:
                                     if v_ is not None and norm(v_).replace('"', "'") in (f"getattr({p_schema}, 'type', None)", f"{p_schema}.type"):
@@ -727,7 +747,49 @@ def rule_name_fallback_respects_kind(repo: Repo, rep: Report, rule: str = "R2.11
                     pass
                 except Unknown:
                     leak = None
-            if kinds and leak is not None:
+            # ... and the other direction: a cycle placeholder is bound to its target by this very lookup and always carries `type="object"`, whatever the
+            # target is (a named array, a oneOf union without type, ...): for an `object` schema the fallback must be taken for every target kind
+            lost = None
+            if kinds and leak is None:
+                from sa.feval import Unknown as _U2, evaluate as _ev2
+
+                ph = None
+                try:
+                    ph = repo.func("core.parsing.unified_cycle_detection:create_cycle_placeholder")
+                except AnalysisError:
+                    ph = None
+                ph_object = ph is not None and any(isinstance(c2, ast.Call) and (dotted(c2.func) or "").endswith("IRSchema") and any(
+                    k.arg == "type" and const_str(k.value) == "object" for k in c2.keywords) for c2 in ast.walk(ph.node))
+                if ph_object:
+                    stop2 = tuple(L.params) + (tgt,)
+                    A2, B2 = object(), object()
+                    try:
+                        for tt_ in ["array", None, "string", "integer"]:
+                            env = {**class_consts, f"{p_schema}.type": "object", f"{tgt}.type": tt_, p_schema: A2, tgt: B2, f"{p_schema}.name": "N"}
+                            for nm_, ds_ in L.defs.items():
+                                for _, v_, _ in ds_:
+                                    if v_ is not None and norm(v_).replace('"', "'") in (f"getattr({p_schema}, 'type', None)", f"{p_schema}.type"):
+                                        env.setdefault(nm_, "object")
+                                    if v_ is not None and norm(v_).replace('"', "'") in (f"getattr({tgt}, 'type', None)", f"{tgt}.type"):
+                                        env.setdefault(nm_, tt_)
+                            for g, pol in gs:
+                                gi = L.inline(g.ast, depth=6, stop=stop2)
+                                txt = norm(gi)
+                                if not ("type" in txt and tgt in txt):
+                                    continue
+                                if bool(_ev2(gi, env)) != pol:
+                                    lost = tt_
+                                    break
+                            if lost is not None:
+                                break
+                    except _U2:
+                        lost = None
+            if kinds and leak is None and lost is not None:
+                rep.violation(rule, sub, f"{fn.fq}|placeholder-target-kind|{lost}",
+                              f"a cycle placeholder always has `type='object'` and is bound to the schema it stands for by this lookup alone; when that schema is of kind `{lost}` (a named "
+                              "array, a oneOf / anyOf union) the lookup is refused as 'another kind' and the field falls back to `dict[str, Any]`: its structural kind is lost, depending on "
+                              "which schema of the cycle is reached first", fn.loc(c))
+            elif kinds and leak is not None:
                 rep.violation(rule, sub, f"{fn.fq}|name-fallback-merges-kinds|{leak[0]}|{leak[1]}",
                               f"an inline `{leak[0]}` schema whose name (the property key) equals a registered `{leak[1]}` schema is replaced by that schema: the two kinds are "
                               f"treated as one, the field is typed with the registered model and a conforming `{leak[0]}` value is converted (1.5 -> 1) or rejected", fn.loc(c))
